@@ -160,6 +160,9 @@ func GenC01(seed uint64) *Scenario {
 	b := genBase(r, GenOpts{}, first)
 	s := &Scenario{Prop: "C01", Seed: seed, Family: "strategy", Pkg: b.pkg, First: first, Head: b.head, ConfDepth: uint64(r.Range(1, 4))}
 	genPolicy(r, s)
+	if r.Chance(1, 12) {
+		return genLiveBackfill(seed, r)
+	}
 	nh := r.Range(0, 2)
 	maps := []string{}
 	for _, m := range b.pkg.Mods {
@@ -173,6 +176,16 @@ func GenC01(seed uint64) *Scenario {
 			out = maps[r.Intn(len(maps))]
 		}
 		h := HistItem{Req: genReq(r, b, b.pkg, out, first)}
+		if i < nh && r.Chance(1, 4) {
+			// an earlier request with a variant of the package (one field of one module changed): the cache
+			// identity of the changed module and of its descendants must differ, everything else is shared
+			if v := variantOf(b.pkg, r); v != nil {
+				if _, err := inspectGraph(v, b.pkg.Output, true); err == nil {
+					h.Pkg = v
+					h.Req = genReq(r, b, v, b.pkg.Output, first)
+				}
+			}
+		}
 		if i < nh && r.Chance(1, 4) {
 			h.EvictN = []int{100, 300, 600}[r.Intn(3)]
 			h.EvictK = []string{"any", "full", "partial", "output", "notfull", "index"}[r.Intn(6)]
@@ -413,4 +426,69 @@ func shapeOf(s *Scenario) string {
 		}
 	}
 	return fmt.Sprintf("m%d/s%d/%s/seg%d/%s", k, st, modes, s.History[len(s.History)-1].Req.SegSize, s.Policy)
+}
+
+// variantOf changes one hashed field of one module that the output depends on.
+func variantOf(p *PkgDef, r *Rng) *PkgDef {
+	v := p.Clone()
+	anc := v.Ancestors(v.Output)
+	var cands []*ModDef
+	for _, m := range v.Mods {
+		if anc[m.Spec.Name] {
+			cands = append(cands, m)
+		}
+	}
+	if len(cands) == 0 {
+		return nil
+	}
+	m := cands[r.Intn(len(cands))]
+	switch r.Intn(5) {
+	case 0:
+		m.Spec.Salt ^= 0x5bd1e995 // code
+	case 1:
+		if len(m.Spec.Inputs) > 0 && m.Spec.Inputs[0].Kind == "params" && (m.Filter == nil || !m.Filter.FromParams) {
+			m.Param = m.Param + "x" // parameter value
+		} else {
+			m.Spec.Salt ^= 0x7f4a7c15
+		}
+	case 2:
+		m.Initial++ // initial block
+	case 3:
+		if m.Spec.Kind == "store" {
+			m.Spec.Keys = m.Spec.Keys%8 + 1 // code (behaviour)
+		} else {
+			m.Spec.EmptyPm = (m.Spec.EmptyPm + 333) % 900
+		}
+	case 4:
+		if m.Filter != nil && !m.Filter.FromParams {
+			e := genExpr(r, []string{"a", "b", "c", "d"}, 2)
+			m.Filter.Expr, m.Filter.Query = e, e.Render(r)
+		} else {
+			m.Spec.Salt ^= 0x1234567
+		}
+	}
+	return v
+}
+
+// genLiveBackfill: production request with a long linear (live) part, so that the live back-filler
+// asks tier2 for segments while the linear pipeline runs (N9).
+func genLiveBackfill(seed uint64, r *Rng) *Scenario {
+	b := genBase(r, GenOpts{MinMods: 2, MaxMods: 4, NoIndex: true, WantStores: r.Range(0, 1), InitChoices: []uint64{0}}, 0)
+	s := &Scenario{Prop: "C01", Seed: seed, Family: "live_backfill", Pkg: b.pkg, ConfDepth: uint64(r.Range(1, 3))}
+	genPolicy(r, s)
+	lo := max(b.gi.outInit, b.gi.lowest)
+	start := lo + uint64(r.Intn(int(2*b.seg)))
+	q := ReqSpec{Output: b.pkg.Output, SegSize: b.seg, Workers: uint64(r.Range(1, 3)), Prod: true, Start: int64(start)}
+	q.Final = start + uint64(r.Intn(int(b.seg)+1))
+	q.Stop = q.Final + uint64(r.Range(135, 200))
+	s.History = []HistItem{{Req: q}}
+	if r.Chance(1, 2) {
+		// a second request served from what the live back-filler cached
+		q2 := q
+		q2.Final = q.Stop
+		q2.Workers = uint64(r.Range(1, 3))
+		s.History = append(s.History, HistItem{Req: q2})
+	}
+	fixHead(s)
+	return s
 }
